@@ -5,6 +5,7 @@
 -/
 import Wharf.Props.C01
 import Wharf.Props.C03E2E
+import Wharf.Props.C07
 
 namespace Wharf.C03
 open Wharf Wharf.Patch Wharf.PatchResume
@@ -39,6 +40,24 @@ theorem resume_e2e_writePatch (P : Rsync.Params) (hbs : 0 < P.bs) (hmx : 0 < P.m
   obtain ⟨r, hp, hout, _⟩ := C01.fresh_roundtrip P hbs hmx olds news
   have h := resume_e2e _ _ r ck disk hp rfl (sizesOK_writePatch P olds news r hout) hck hcrash
   rw [hout] at h
+  exact h
+
+/-- C03 for OPTIMIZED patches: whatever mapping the optimizer chose and whatever differ it used (as long as its
+    series do their job: `C07.SeriesOK`, discharged for the bsdiff model by `C07.bridge`/`C12.roundtrip`), resuming
+    the application of the optimized patch from any of its checkpoints and any crash state gives exactly the
+    files of the original patch. -/
+theorem resume_e2e_optimized (E : Env) (hnw : E.whitelist = none) (msgs : List WMsg) (r : Res)
+    (maps : List (Option (Nat × Int))) (differ : Nat → Nat → Outcome (List Bsdiff.Ctrl)) (out : List WMsg)
+    (hplain : C07.PlainPatch E.newSizes.size msgs) (hlen : maps.length = E.newSizes.size)
+    (hfull : patch E msgs = .ok r) (hsz : SizesOK E r.out)
+    (hdiff : ∀ i t n cs, maps[i]? = some (some (t, n)) → differ t i = .ok cs → C07.SeriesOK E r t i cs)
+    (hopt : Rediff.optimize differ maps 0 msgs = .ok out)
+    (ck : Ckpt) (disk : Nat → List Byte)
+    (hck : ck ∈ checkpoints E out) (hcrash : CrashOK E out ck disk) :
+    resumeFrom E out ck disk = .ok r.out := by
+  obtain ⟨r', hp', hout', _⟩ := C07.optimize_apply_equal E hnw msgs r maps differ out hplain hlen hfull hdiff hopt
+  have h := resume_e2e E out r' ck disk hp' hnw (by rw [hout']; exact hsz) hck hcrash
+  rw [hout'] at h
   exact h
 
 end Wharf.C03
